@@ -421,6 +421,13 @@ package protocol
 //@   loop 1:
 //@     invariant true
 //@
+//@ // One door into a session (C03, C01): segments reach Session.input only from the session's
+//@ // input loop, which takes them from the receive channel in arrival order - no underlay
+//@ // handler processes a segment (a close message in particular) ahead of segments still
+//@ // waiting in that channel.
+//@ struct callers Session.input = {Session.runInputLoop}
+//@   property C03 C01
+//@
 //@ // The TCP output loop drains the send queue and writes each segment while holding the
 //@ // session's output lock, from the first segment to the empty queue: nothing that takes the
 //@ // lock (Close's direct write of the close request) can overtake data still queued (C03).
@@ -886,24 +893,36 @@ package protocol
 //@ // (The floating-point value itself is outside the technique; integer-to-float conversion is
 //@ // an uninterpreted function of the integer.)
 //@ func (s *Session) runOutputOncePacket__closure1(iter *segment) (r bool)
-//@   property C02
+//@   property C02 C13
 //@   mode int
 //@   partial
 //@   posts_only
 //@   noframe
 //@   may_panic
-//@   assert_call Pow: arg1 == float64(iter.txCount)
+//@   assert_call Pow: [C02] arg1 == float64(iter.txCount)
+//@   // a retransmitted data segment is re-stamped with exactly the next expected sequence number (C13)
+//@   assert_call Session.output: [C13] typeof(iter.metadata) == typeid(*dataAckStruct) && 6 <= payload(iter.metadata, *dataAckStruct).baseStruct.protocol && payload(iter.metadata, *dataAckStruct).baseStruct.protocol <= 11 ==> payload(iter.metadata, *dataAckStruct).unAckSeq == s.nextRecv.v
 //@
 //@ func (s *Session) runOutputOncePacket()
-//@   property C02
+//@   property C02 C13 C15
 //@   mode int
 //@   partial
 //@   posts_only
 //@   noframe
 //@   may_panic
 //@   requires s != nil
-//@   assert_call Pow: arg1 == float64(seg.txCount)
+//@   assert_call Pow: [C02] arg1 == float64(seg.txCount)
+//@   // acknowledgements (C13): every segment this loop puts on the wire - a new data segment or a
+//@   // pure acknowledgement - is stamped with exactly the next expected sequence number, never
+//@   // more, and is written under the session's output lock
+//@   assert_call Session.output: [C13] ghost(held_Session_oLock) == mathint(s)
+//@   assert_call Session.output @"s.output(ackSeg, s.RemoteAddr())": [C13] typeof(ackSeg.metadata) == typeid(*dataAckStruct) && payload(ackSeg.metadata, *dataAckStruct).unAckSeq == s.nextRecv.v
+//@   assert_call Session.output @"s.output(seg, s.RemoteAddr())": [C13] typeof(seg.metadata) == typeid(*dataAckStruct) && 6 <= payload(seg.metadata, *dataAckStruct).baseStruct.protocol && payload(seg.metadata, *dataAckStruct).baseStruct.protocol <= 11 ==> payload(seg.metadata, *dataAckStruct).unAckSeq == s.nextRecv.v
+//@   // closing from inside the output loop (C15): closeWithError takes the output lock itself, so
+//@   // it is only ever called with the lock released (otherwise the loop deadlocks on itself and
+//@   // the session can never be closed)
+//@   assert_call Session.closeWithError: [C15] ghost(held_Session_oLock) == 0
 //@   loop 1:
-//@     invariant true
+//@     invariant ghost(held_Session_oLock) == mathint(s)
 //@   loop 2:
 //@     invariant true
